@@ -240,6 +240,33 @@ def targeted_jobs(chk, cmp=CMP_SPEND):
                     vout=[btc.TxOut(500, b"\x51")])
         for sel in (-1, 0, 1, 2, 3):
             add("same-funding:%d:sel%d" % (rep, sel), tx, funding, [f for f in STANDARD if f != "CLEANSTACK"], select=sel)
+    # relative and absolute lock times against the fields of the spending transaction: version (read as unsigned), sequence, lock time
+    for ver in (2, 1, 0, 0xffffffff, 0x80000002):
+        for seq in (1, 0, 5, 0xffffffff, 0x80000001, 0x00400001, 0x00400005):
+            for opnd in (b"\x01", b"\x05", b"\x01\x00\x40", b"\x00\x00\x00\x80\x00"):
+                if (seq, opnd) not in ((1, b"\x01"), (5, b"\x05"), (1, b"\x05"), (0x00400001, b"\x01\x00\x40"), (0x00400005, b"\x01"), (0xffffffff, b"\x01"), (0x80000001, b"\x01"),
+                                       (0, b"\x00\x00\x00\x80\x00"), (5, b"\x01")) and ver == 2:
+                    continue
+                if ver != 2 and (seq, opnd) not in ((1, b"\x01"), (5, b"\x01"), (0, b"\x00\x00\x00\x80\x00")):
+                    continue
+                ws = push(opnd) + O("CHECKSEQUENCEVERIFY") + O("DROP") + b"\x51"
+                for typ in ("p2wsh", "bare"):
+                    c = SpendCase(rng, "p2wsh", "valid", 1, 0, 0)
+                    c.tx.version = ver; c.tx.vin[0].sequence = seq
+                    if typ == "p2wsh":
+                        c.funding.vout[0] = btc.TxOut(c.funding.vout[0].amount, btc.p2wsh(ws)[0]); c.tx.witness[0] = [ws]
+                    else:
+                        c.funding.vout[0] = btc.TxOut(c.funding.vout[0].amount, ws); c.tx.witness = [[]]
+                    c.tx.vin[0].prev_txid = c.funding.txid()
+                    add("csv:%s:v%x:s%x:%s" % (typ, ver, seq, opnd.hex()), c.tx, c.funding)
+    for lt, seq, opnd in ((100, 0, b"\x64"), (100, 0, b"\x65"), (100, 0xffffffff, b"\x64"), (500000000, 0, b"\x64"), (500000001, 0, b"\x00\x65\xcd\x1d"), (99, 0, b"\x64"),
+                          (0xffffffff, 1, b"\xff\xff\xff\xff\x00"), (100, 0xfffffffe, b"")):
+        ws = push(opnd) + O("CHECKLOCKTIMEVERIFY") + O("DROP") + b"\x51"
+        c = SpendCase(rng, "p2wsh", "valid", 1, 0, 0)
+        c.tx.locktime = lt; c.tx.vin[0].sequence = seq
+        c.funding.vout[0] = btc.TxOut(c.funding.vout[0].amount, btc.p2wsh(ws)[0]); c.tx.witness[0] = [ws]
+        c.tx.vin[0].prev_txid = c.funding.txid()
+        add("cltv:%d:s%x:%s" % (lt, seq, opnd.hex() or "e"), c.tx, c.funding)
     # witness items whose hex text could be read as something else (decimal digits only, opcode-like, 'e'-notation): they are bytes
     items = [b"\x51", b"\x12\x34", b"\x10", b"\x99", b"\x10\x00\x00", b"\x01\xe3", b"\x00", b"\x00\x51"]
     for typ in ("p2wsh", "p2tr-script"):
